@@ -265,6 +265,40 @@ def impl(case):
 
 # ------------------------------------------------------------------ model encoder
 
+MONO_BUDGET = 600000      # ~1 s of vm_compute (measured: 2e-6 s per unit)
+DEDUP_BUDGET = 2000000
+
+
+def _mono_cost(g, labn, labe, cap):
+    """work units of lib/Mono.v `monos` (induced, g into g, nodes in insertion order): for every node of the search
+    tree, every host node is tested against the partial map (each test walks the edge list)."""
+    nodes = [n for n, _ in g["nodes"]]
+    lab = {n: labn(a) for n, a in g["nodes"]}
+    adj = {n: {} for n in nodes}
+    for u, v, a in g["edges"]:
+        adj[u][v] = adj[v][u] = labe(a)
+    n, ne = len(nodes), len(g["edges"])
+    cost = 0
+
+    def rec(i, acc, used):
+        nonlocal cost
+        if cost > cap or i == n:
+            return
+        p = nodes[i]
+        cost += n * (1 + i * (1 + ne))
+        for h in nodes:
+            if lab[h] != lab[p] or h in used:
+                continue
+            if all(adj[p].get(p2) == adj[h].get(h2) for p2, h2 in acc):
+                acc.append((p, h))
+                used.add(h)
+                rec(i + 1, acc, used)
+                acc.pop()
+                used.discard(h)
+    rec(0, [], set())
+    return cost
+
+
 def coq_case(case):
     k = case["kind"]
     if k == "aut":
@@ -281,6 +315,15 @@ def coq_case(case):
         rc = r["rc"]
         for n, _ in rc["nodes"]:
             if not (isinstance(n, int) and n >= 0):
+                return None
+        # model budget: the verified enumerator tries every host node for every pattern node in insertion order and the
+        # de-duplicator keeps its seen-set as a list; whole-molecule templates (30-60 nodes, hundreds of symmetries) cost
+        # minutes of vm_compute each.  Such cases stay with the oracle (counted under outside_model_domain).
+        if _mono_cost(rc, _lab_f, _lab_e, MONO_BUDGET) > MONO_BUDGET:
+            return None
+        if len(r["raw"]) > 1:
+            msz = max(len(m) for m in r["raw"])
+            if 2 * len(r["raw"]) * max(1, len(r["kept"])) * (1 + r["n_aut"]) * msz * msz > DEDUP_BUDGET:
                 return None
         ifl, ie = GG.Intern(), GG.Intern()
         g = GG.coq_lgraph(rc, lambda n, a: "(0, 0, %s)" % cN(ifl(_lab_f(a))), lambda u, v, a: "(0, %s)" % cN(ie(_lab_e(a))))
